@@ -28,20 +28,10 @@ mod manually {
 
     impl<'xml> Deserialize<'xml> for GetBucketLocationOutput {
         fn deserialize(d: &mut Deserializer<'xml>) -> DeResult<Self> {
-            let mut location_constraint: Option<BucketLocationConstraint> = None;
-            d.for_each_element(|d, x| match x {
-                b"LocationConstraint" => {
-                    if location_constraint.is_some() {
-                        return Err(DeError::DuplicateField);
-                    }
-                    let val: BucketLocationConstraint = d.content()?;
-                    if !val.as_str().is_empty() {
-                        location_constraint = Some(val);
-                    }
-                    Ok(())
-                }
-                _ => Err(DeError::UnexpectedTagName),
-            })?;
+            // The member element is the document itself: exactly one `LocationConstraint` element,
+            // empty for us-east-1. An empty document is not well-formed XML.
+            let val: BucketLocationConstraint = d.named_element("LocationConstraint", Deserializer::content)?;
+            let location_constraint = if val.as_str().is_empty() { None } else { Some(val) };
             Ok(Self { location_constraint })
         }
     }
